@@ -396,13 +396,25 @@ def strategy_body(n, strategy, bits, scen=('a', 'core', 'req')):
     real_update = _sd.TaskGenerator.update
     real_redup = _nodes.reduplicate
 
-    def update(self, exprs):
+    def adopt(exprs):
+        # when the next input is adopted, the rewrite for the previous one
+        # is over: the file must hold it (an interrupt may come right now)
+        if adopted and not state['bad'] and not state['writing']:
+            cur = fs.files.get(OUT)
+            if cur != adopted[-1]:
+                state['bad'] = (f'when input #{len(adopted) + 1} was '
+                                f'adopted the output file did not hold input '
+                                f'#{len(adopted)} ({adopted[-1]!r}) but '
+                                f'{cur!r}')
         adopted.append(nodeio.write_smtlib_to_str(exprs))
+
+    def update(self, exprs):
+        adopt(exprs)
         return real_update(self, exprs)
 
     def redup(exprs):
         if strategy == 'hierarchical':
-            adopted.append(nodeio.write_smtlib_to_str(exprs))
+            adopt(exprs)
         return real_redup(exprs)
 
     _sd.TaskGenerator.update = update
